@@ -220,22 +220,9 @@ def probe_returned(ctx, pool, rng, history):
                     r1 = oracles.outcome(thunk)  # second call: served from the cache when caching is on
                 cont = r1[1]
                 before = canon(pool, cont)
-                # a second answer to the same question, taken BEFORE the first one is touched: the two results
-                # belong to two callers, and what one of them does with his must not show in the other's
-                twin = oracles.outcome(thunk)
-                twin_before = canon(pool, twin[1]) if twin[0] == "ok" else None
                 how = mutate(cont, kind, foreign)
                 ctx.evaluated()
                 ctx.count(f"probe:{acc}:{mode}")
-                if how == "mutated" and twin[0] == "ok" and canon(pool, twin[1]) != twin_before:
-                    ctx.count("two_results_in_hand_probes")
-                    ctx.violation(f"returned:{acc}:two_results_share_one_container" + (":caching_on" if mode != "off" else ""),
-                                  f"two successive answers of {acc} were in hand; {kind} on the first changed the second from "
-                                  f"{twin_before} to {canon(pool, twin[1])}",
-                                  {"kind": "returned", "ops": history, "accessor": acc, "mutation": kind, "mode": mode})
-                    continue
-                if how == "mutated":
-                    ctx.count("two_results_in_hand_probes")
                 if how == "n/a":
                     continue
                 if how == "protected":
@@ -258,6 +245,19 @@ def probe_returned(ctx, pool, rng, history):
                     ctx.violation(f"returned:{acc}:later_answer_changed" + (":caching_on" if mode != "off" else ""),
                                   f"after {kind} on the {type(cont).__name__} returned by {acc} (caching {mode}) the same "
                                   f"query answers {after} instead of {before}", case)
+                else:
+                    # a separate pass (an extra query in the middle of the pass above would refresh what an
+                    # implementation remembers and hide an aliased first answer): two answers to the same question are
+                    # in hand at once - they belong to two callers, and what one does with his must not show in the other's
+                    one, two = oracles.outcome(thunk), oracles.outcome(thunk)
+                    if one[0] == "ok" and two[0] == "ok":
+                        two_before = canon(pool, two[1])
+                        if mutate(one[1], kind, foreign) == "mutated":
+                            ctx.count("two_results_in_hand_probes")
+                            if canon(pool, two[1]) != two_before:
+                                ctx.violation(f"returned:{acc}:two_results_share_one_container" + (":caching_on" if mode != "off" else ""),
+                                              f"two successive answers of {acc} were in hand; {kind} on the first changed the "
+                                              f"second from {two_before} to {canon(pool, two[1])}", case)
             finally:
                 Vertex.NEIGHBOR_CACHING = False
 
